@@ -25,6 +25,8 @@ def jobs(tier, seed):
                  name="random-ctl")
     js += batches("conduct", scale(tier, 120, 2000), scale(tier, 20, 100), gen="mix", p_loop=0.4, gseed=seed + 3, P=P,
                   scheds=2, name="free")
+    js += batches("conduct", scale(tier, 100, 2500), scale(tier, 10, 100), gen="mix", p_loop=0.3, gseed=seed + 5,
+                  P=dict(P, p_fail_cmd=0.03), scheds=2, p_fail=0.3, exotic=0.5, ctl=dict(rerun=1.0), name="default-rerun")
     js += batches("ctl_sweep", scale(tier, 40, 600), scale(tier, 4, 20), gen="mix", p_loop=0.3, gseed=seed + 7,
                   P=dict(P, nmax=6), modes=["pause"], name="pause-sweep")
     return js
